@@ -159,6 +159,7 @@ def StdPathM.wireValid (p : StdPathM) : Except String Unit :=
   else if p.segments.isEmpty then .error "Standard path must contain at least one segment"
   else if p.currHop ≥ p.hopCount then .error "curr_hop_field exceeds total number of hop fields"
   else if p.currHop > StdPathMeta.MAX_TOTAL_HOPS then .error "curr_hop_field exceeds maximum encodeable value"
+  else if p.hopCount > StdPathMeta.MAX_TOTAL_HOPS + 1 then .error "total number of hop fields exceeds maximum encodeable value"
   else if p.currInfo ≥ p.segments.length then .error "current_info_field exceeds total number of info fields"
   else
     match p.segments.find? (fun s => s.hops.length > StdPathMeta.MAX_SEGMENT_HOPS || s.hops.isEmpty) with
